@@ -255,6 +255,8 @@ def main():
     errors = [(u["unit"], u["error"]) for u in units if u.get("error")]
     vacuous = [(u["unit"], u["vacuous"]) for u in units if u.get("vacuous")]
     n_obl = n_dis = 0
+    bounded_stats = {"obligations": 0, "held": 0, "units": [u["unit"] for u in units if u.get("bounded_run")],
+                     "note": "bounded stand-ins (loops fully unrolled under the contract's bounding assumptions); not counted in obligations/discharged"}
     failing = {}  # base -> list of (unit, obl)
     by_solver = {}
     samples = []
@@ -263,8 +265,16 @@ def main():
         for o in u.get("obligations") or []:
             if o.get("cover"):
                 continue
-            n_obl += 1
             solver_s += o.get("seconds", 0)
+            if u.get("bounded_run"):
+                # bounded stand-in: reported separately, never counted as proved
+                bounded_stats["obligations"] += 1
+                if o["status"] in ("discharged", "trivial"):
+                    bounded_stats["held"] += 1
+                else:
+                    failing.setdefault(base_name(o["name"]), []).append((u, o))
+                continue
+            n_obl += 1
             if o["status"] in ("discharged", "trivial"):
                 n_dis += 1
                 s = o.get("solver") or "syntactic"
@@ -402,7 +412,7 @@ def main():
             "vacuity": {"cover_queries": sum(1 for u in units for o in (u.get("obligations") or []) if o.get("cover")),
                         "cover_sat": sum(1 for u in units for o in (u.get("obligations") or []) if o.get("status") == "cover-ok"),
                         "vacuous_units": vacuous},
-            "bounded": cfg.get("bounded", []),
+            "bounded": cfg.get("bounded", []) + ([bounded_stats] if bounded_stats["obligations"] else []),
             "bounded_fallback": bounded_info,
             "known_findings": known_lines,
             "errors": errors,
